@@ -8,6 +8,7 @@ From Coq Require Import ZArith List Bool.
 Import ListNotations.
 Require Import PV.Infer.Mini PV.Proofs.InferBase PV.Proofs.InferSound PV.Proofs.InferStmt.
 Require Import PV.Gen.Ops PV.Ops.SeqIndex PV.Proofs.OpsSeqIndex PV.Proofs.InferCompose.
+Require Import PV.Scopes.Syntax PV.Scopes.Analysis PV.Scopes.Paths PV.Scopes.Guards.
 
 (* the property on the mini-language, guarded: == is only narrowed against non-numeric literals
    (stmt_okb).  For every program the analysis accepts — with whatever loop invariants `inv` the
@@ -133,3 +134,22 @@ Theorem C01_subscript_none_iff_index_error : forall vs k os,
   member (OTuple os) (VSeq vs) = true -> (tuple_index vs k = None <-> tuple_index os k = None).
 Proof. exact subscript_none_iff_index_error. Qed.
 Print Assumptions C01_subscript_none_iff_index_error.
+
+(* ---- composition with C09 (Scopes/Analysis.v, the model of FunctionScope's collecting phase, and the
+   strict path semantics of Scopes/Paths.v over assignments, uses, if/else, for/while with else,
+   `while True`, break/continue, with, try/except/else/finally, nested to any depth).
+   The value of a name at a use is the union of the values of the definition nodes reported for it;
+   whatever definition d binds the variable along a strict path, an object of vals d is in that union.
+   The reaching-definitions hypothesis of the C01 composition is discharged by
+   C09_strict_sub_reported_partial (same guard lower_ok). *)
+Theorem C01_name_value_sound_from_C09 : forall (vals : node -> val) p u d o,
+  lower_ok p = true -> strict_reach p u d -> member o (vals d) = true ->
+  member o (VUnion (map vals (reported p u))) = true.
+Proof. exact name_value_sound_from_c09. Qed.
+Print Assumptions C01_name_value_sound_from_C09.
+
+Theorem C01_name_never_unreachable_from_C09 : forall (vals : node -> val) p u d o,
+  lower_ok p = true -> strict_reach p u d -> member o (vals d) = true ->
+  VUnion (map vals (reported p u)) <> VNever.
+Proof. exact name_value_never_unreachable_from_c09. Qed.
+Print Assumptions C01_name_never_unreachable_from_C09.
